@@ -32,7 +32,7 @@ RULE = ("cases = (solver|estimator, datafit, penalty, instance) x containers; no
 SLACK = {"objective_rounding_rel": 1e-11, "float32_objective_rel": 1e-3}
 ASSUMPTIONS = ["sklearn _validate_data shim for regression estimators"]
 FLOOR = {"quick": 120, "thorough": 2000}
-REPS = {"quick": 3, "thorough": 45}
+REPS = {"quick": 3, "thorough": 60}
 
 FAMILIES = [
     ("AndersonCD", "Quadratic", "L1"), ("AndersonCD", "Quadratic", "MCPenalty"), ("AndersonCD", "Logistic", "WeightedL1"),
